@@ -183,6 +183,7 @@ def run(tier):
         meta.append((bi, nj, bs, plans, lg))
     common.run_drivers_parallel(jobs, timeout=4 * 3600)
     nplans = 0
+    wallclock = 0
     for bi, nj, bs, plans, lg in meta:
         rows, mcs = refs[(bi, nj, bs)]
         nid += 1
@@ -197,12 +198,18 @@ def run(tier):
         nid += 1
         events.append({"ev": "faulted", "id": nid, "batch": bi, "n_jobs": nj, "bs": bs or 0, "plan": {}, "affected": [],
                        "raised": raised.get(1, ""), "rows": [_row(e) for e in by_run.get(1, [])]})
+        ref_slow = {p for p, e in enumerate(rows) if "timeout" in str(e["issue"]).lower()}
         for k, (plan, aff) in enumerate(plans):
             nid += 1
             nplans += 1
+            rr = by_run.get(k + 2, [])
+            # a row that hit a real wall-clock budget (machine under load), in this run or in the reference, is not
+            # comparable: it counts as affected (the containment clauses are still evaluated on it)
+            slow = {p for p, e in enumerate(rr) if p not in aff and "timeout" in str(e["issue"]).lower()} | (ref_slow - set(aff))
+            wallclock += len(slow)
             events.append({"ev": "faulted", "id": nid, "batch": bi, "n_jobs": nj, "bs": bs or 0, "plan": plan,
-                           "affected": sorted(p + 1 for p in aff), "raised": raised.get(k + 2, ""),
-                           "rows": [_row(e) for e in by_run.get(k + 2, [])]})
+                           "affected": sorted(p + 1 for p in set(aff) | slow), "raised": raised.get(k + 2, ""),
+                           "rows": [_row(e) for e in rr]})
     log = os.path.join(wd, "c11.ndjson")
     common.write_ndjson(log, events)
     n, bad, st = common.validate_trace("Fault_Trace", log, xmx="12g")
@@ -226,6 +233,7 @@ def run(tier):
                          "raised": e["raised"]},
                  replay={"inputs": BATCHES[e["batch"]], "n_jobs": e["n_jobs"], "plan": e["plan"], "batch_size": e["bs"] or None,
                          "affected": e["affected"]})
+    rep.extra["rows_excluded_for_wallclock_timeouts"] = wallclock
     zomb = sum(1 for e in events if e["ev"] == "faulted" and any(k.startswith("open_at") for k in e["plan"]))
     changed = 0
     for e in events:
